@@ -171,8 +171,12 @@ def run(ctx):
     ctx.floor("R14.2", "table functions", n_f, 25)
     # the runner's call shape (anchor for R14.2)
     rvf = sv.methods.get("_run_validators")
-    shape = [c for c in walk_no_nested(rvf.node) if isinstance(c, ast.Call) and isinstance(c.func, ast.Name)
-             and c.func.id == "validator"] if rvf else []
+    shape = []
+    if rvf:
+        loopvars = {x.id for lp in walk_no_nested(rvf.node) if isinstance(lp, ast.For) and isinstance(lp.iter, ast.Name)
+                    and lp.iter.id in rvf.params() for x in ast.walk(lp.target) if isinstance(x, ast.Name)}
+        shape = [c for c in walk_no_nested(rvf.node) if isinstance(c, ast.Call) and isinstance(c.func, ast.Name)
+                 and c.func.id in loopvars]
     if not shape or len(shape[0].args) != 3 or shape[0].keywords:
         raise AnalysisError("R14.2 anchor: _run_validators no longer calls validator(schema, entry, attribute)")
 
